@@ -294,4 +294,66 @@ func init() {
 			"not mechanised: that the error returned by NextPackageUntil after a callback failure carries all messages received so far in order and still matches the callback's error (errors.Is through EEDError.Unwrap/Is is outside the generator's error model), and the per-member count of environment change hook invocations (a product, nonlinear)",
 		},
 	}
+	c04bound := "integers: every INT1 and INT2 value, 22 boundary + 2000 (quick) / 50000 (thorough) seeded 64-bit patterns reused for INT4/INT8/UINT*/FLT* (bit patterns incl. NaN, Inf, -0) and MONEY/SHORTMONEY; DECN/NUMN for precisions 1..38 with boundary magnitudes and both signs; every 3rd (quick) / every (thorough) day of 0001-01-01..9999-12-31 for the calendar helpers and DATE, sampled BIGDATETIMEN / DATETIME ticks per day; SHORTDATE days x 6 minute values; every 997th (quick) / 7th (thorough) TIME tick; 300 random binary / character / unitext strings over all planes; NULL for every nullable type; reference codec written independently (own civil-date arithmetic, math/big, explicit byte composition)"
+	properties["C04"] = &Property{
+		ID:    "C04",
+		Title: "Field values survive encoding and decoding unchanged",
+		Pkgs:  []string{"./asetypes", "./tds"},
+		Funcs: []string{`^\(asetypes\.DataType\)\.(GoValue|goValue)$`, `^\(\*tds\.fieldDataBase\)\.(readFrom|readFromStatus)$`, `^\(tds\.fieldDataBase\)\.(writeTo|writeToStatus)$`, `^\(\*tds\.fieldDataPrecisionScale\)\.ReadFrom$`},
+		After: func(P *Prog, rep *Report, tier string) {
+			runIsland(rep, P.repoDir, "value-codec", "asetypes", "c04_island_test.go", "TestIslandC04", c04bound, 300, "VERIF_TIER="+tier)
+			runIsland(rep, P.repoDir, "package-roundtrip", "tds", "c06_island_test.go", "TestIslandC06",
+				"parameter formats and data over 20 typed values (all client-side data types incl. NULLs, decimals, money), narrow and wide, status bits {0, 8, 0x20, 0x28}, 1..3 fields per package, written by the real WriteTo and read back by LookupPackage/LastPkg/ReadFrom", 120)
+		},
+		Assumptions: []string{
+			"encoding/binary.Read/Write, math/big, time and the float expressions of asetime are library code outside the generator; the value-level round trips are therefore decided only on the bounded domain of the island (labelled bounded)",
+			"contracts of the BytesChannel (C15) for the field readers and writers",
+		},
+		Notes: []string{
+			"proved (unbounded): the safety obligations of the decoders (no index / slice / nil failure for any byte string of the declared length), that the field readers report a dry stream as ErrNotEnoughBytes, and that the field writers only append to the output stream",
+			"bounded: exact round trip of every data type's values and of values travelling inside parameter packages, as listed in the bound",
+		},
+	}
+	properties["C05"] = &Property{
+		ID:    "C05",
+		Title: "Data type wire encodings match the TDS 5.0 layouts",
+		Pkgs:  []string{"./asetypes"},
+		Funcs: []string{`^\(asetypes\.DataType\)\.(GoValue|goValue)$`},
+		After: func(P *Prog, rep *Report, tier string) {
+			runIsland(rep, P.repoDir, "value-codec", "asetypes", "c04_island_test.go", "TestIslandC04", c04bound, 300, "VERIF_TIER="+tier)
+		},
+		Assumptions: []string{
+			"the layouts are compared with a reference codec written for the check from the property text (little-endian integers and IEEE bit patterns, money high word then low word, numeric sign byte plus big-endian magnitude, days since 1900-01-01, 1/300 s ticks, minutes, microseconds since 0000-01-01 / midnight, UTF-16LE); the reference itself is trusted",
+			"encoding/binary, math/big, time are outside the generator: the layout claims are decided only on the bounded domain of the island (labelled bounded); for the calendar helpers the domain (every day of years 1..9999) is covered completely in the thorough tier",
+		},
+		Notes: []string{
+			"proved (unbounded): decoder safety for every byte string of the declared length",
+			"bounded: byte-for-byte agreement of DataType.Bytes with the reference codec and agreement of GoValue with the reference decoding; TimeToMicroseconds / MicrosecondsToTime / DurationFromDateTime against own civil-date arithmetic for every day (thorough) or every third day (quick) of years 1..9999",
+		},
+	}
+	properties["C06"] = &Property{
+		ID:    "C06",
+		Title: "Package encodings are self-consistent and match their wire layout",
+		Pkgs:  []string{"./tds"},
+		Funcs: []string{
+			`^\(tds\.(CurClosePackage|CurDeletePackage|CurFetchPackage|CurInfoPackage|CurOpenPackage|CurUpdatePackage|EEDPackage|EnvChangePackage|ErrorPackage|LoginAckPackage|OptionCmdPackage|MsgPackage|DonePackage|ReturnStatusPackage|LogoutPackage)\)\.WriteTo$`,
+			`^\(\*tds\.LanguagePackage\)\.WriteTo$`, `^\(tds\.EnvChangePackageField\)\.WriteTo$`,
+			`^\(\*tds\.(EnvChangePackage|EnvChangePackageField|ErrorPackage|EEDPackage|DonePackage|ReturnStatusPackage)\)\.ReadFrom$`,
+			`^\(\*tds\.LoginConfig\)\.pack$`, `^tds\.(writeString|writeBasedOnEndian)$`,
+		},
+		After: func(P *Prog, rep *Report, tier string) {
+			runIsland(rep, P.repoDir, "package-roundtrip", "tds", "c06_island_test.go", "TestIslandC06",
+				"DONE (7 status values x 5 counts), RETURNSTATUS, LOGOUT, MSG (5 ids x 2 status), EED / ERROR / ENVCHANGE (1 and 3 members) / LANGUAGE over 6 x 4 boundary strings (empty, 1, 30, 255 bytes, non-ASCII), DYNAMIC narrow and wide, LOGINACK, PARAMFMT + PARAMS narrow and wide over 20 typed values x 4 status combinations x 1..3 fields: written by the real WriteTo into a real PacketQueue and read back through LookupPackage / LastPkg / ReadFrom; fields compared, bytes consumed exactly", 120)
+		},
+		Assumptions: []string{
+			"BytesChannel write contracts (C15): typed writers append little-endian bytes to the output stream",
+			"bytes.Buffer contract for the login record",
+			"packages only a server sends that the library cannot write (ROWFMT, ROW, ...) and packages LookupPackage does not know (OPTIONCMD) have no round trip inside the library; their independent decoding is not covered",
+		},
+		Notes: []string{
+			"proved (unbounded, all field values that fit the width of the length field): the length field written after the token byte equals the number of bytes that follow it for CURCLOSE, CURDELETE, CURFETCH, CURINFO, CUROPEN, CURUPDATE, EED, ERROR, OPTIONCMD (16 bit), LANGUAGE (32 bit) and MSG (8 bit); DONE has the fixed size 9; every writer only appends; the login record has its fixed layout with oversized fields rejected (see C09); an environment change member is always read into a zeroed member",
+			"bounded: read-back equality for the package types listed in the bound",
+			"unclaimed: the length clause of ENVCHANGE (needs a sum invariant the solvers time out on) and LOGINACK (the length is a struct field supplied by the caller); CAPABILITY is outside the generator's subset (invalid basic type in its value mask code)",
+		},
+	}
 }
